@@ -429,6 +429,15 @@ class Interp:
             elif isinstance(n, ast.Global):
                 fr.globalnames.update(n.names)
         is_gen = contains_yield(fnode)
+        if isinstance(fnode, ast.AsyncFunctionDef) and not is_gen:
+            # calling an async def creates a coroutine object; the body runs when it is awaited / scheduled
+            del st.frames[fid]
+            captured = dict(loc)
+
+            def thunk(st2, fnode=fnode, globs=globs, outer=list(outer), qualname=qualname, filename=filename, captured=captured):
+                return self._run_bound(st2, fnode, globs, outer, qualname, filename, dict(captured))
+            yield st, VCoro(thunk, qualname)
+            return
         if is_gen:
             fr.yields = True
             st.frames[fid]['$yields'] = st.alloc(HList(items=[]))
@@ -440,6 +449,25 @@ class Interp:
                     yield s1, s1.frames[fid]['$yields']
                 else:
                     yield s1, (ctl.value if ctl is not None and ctl.value is not None else VNone)
+            elif ctl.kind == 'raise':
+                yield s1, Raise(ctl.value)
+            else:
+                raise Unsupported(f"{ctl.kind} outside loop")
+
+    def _run_bound(self, st, fnode, globs, outer, qualname, filename, loc):
+        """run the body of an (async) function whose parameters are already bound"""
+        fid = st.new_frame(loc)
+        fr = Frame(fid, globs, list(outer), qualname, filename, fnode)
+        for n in ast.walk(fnode):
+            if isinstance(n, ast.Nonlocal):
+                fr.nonlocals.update(n.names)
+            elif isinstance(n, ast.Global):
+                fr.globalnames.update(n.names)
+        st.depth += 1
+        for s1, ctl in self.exec_block(fnode.body, st, fr):
+            s1.depth -= 1
+            if ctl is None or ctl.kind == 'return':
+                yield s1, (ctl.value if ctl is not None and ctl.value is not None else VNone)
             elif ctl.kind == 'raise':
                 yield s1, Raise(ctl.value)
             else:
@@ -1892,6 +1920,10 @@ class Interp:
                     yield st, exc(AttributeError, f"'{h.cls.__name__}' object has no attribute '{name}'")
                     return
                 yield from self.bind_descriptor(st, d, o, h.cls, name, node)
+                return
+            from .segs import BytesIOCell
+            if isinstance(h, BytesIOCell) and name == 'closed':
+                yield st, VBool(h.closed)
                 return
             yield st, VBuiltinMethod(o, name)
             return
